@@ -28,10 +28,67 @@ import (
 // ---- histories -------------------------------------------------------------------------------
 
 type Item struct {
-	T   string   `json:"t"`             // init exec final inject gettxs reopen
+	T   string   `json:"t"`             // init exec execgen final inject gettxs reopen
 	Txs []string `json:"txs,omitempty"` // exec (valid UTF-8, so JSON round-trips it exactly)
 	H   uint64   `json:"h,omitempty"`   // final
-	Tx  string   `json:"tx,omitempty"`  // inject
+	Tx  string   `json:"tx,omitempty"`  // inject; execgen: the text of the one replaced transaction
+	// execgen = ExecuteTxs of a generated block (size-boundary stream): N transactions
+	// "k<N-1>=Tag" ... "k0000=Tag" (4 digits, descending keys); if Bad > 0 the one at index Bad-1 is Tx instead
+	N   int    `json:"n,omitempty"`
+	Bad int    `json:"bad,omitempty"`
+	Tag string `json:"tag,omitempty"`
+	gen *Item  // set on the expanded "exec" item: the execgen item it came from
+}
+
+func genBlock(it Item) []string {
+	txs := make([]string, it.N)
+	for i := range txs {
+		txs[i] = fmt.Sprintf("k%04d=%s", it.N-1-i, it.Tag)
+	}
+	if it.Bad > 0 && it.Bad <= it.N {
+		txs[it.Bad-1] = it.Tx
+	}
+	return txs
+}
+
+// execgen items written out as the exec calls they stand for
+func expand(h []Item) []Item {
+	out := make([]Item, len(h))
+	for i, it := range h {
+		if it.T == "execgen" {
+			g := it
+			out[i] = Item{T: "exec", Txs: genBlock(it), gen: &g}
+		} else {
+			out[i] = it
+		}
+	}
+	return out
+}
+
+func isBig(h []Item) bool {
+	for _, it := range h {
+		if it.gen != nil {
+			return true
+		}
+	}
+	return false
+}
+
+// long roots are clipped in messages
+func clip(s string) string {
+	if len(s) <= 160 {
+		return s
+	}
+	return fmt.Sprintf("%s...(%d bytes)...%s", s[:80], len(s), s[len(s)-40:])
+}
+
+// fingerprint of a string as Check/KVExecCheck.v fp computes it
+func fp(s string) uint64 {
+	var h uint64
+	for i := 0; i < len(s); i++ {
+		h = (h*257 + uint64(s[i])) % 1000000007
+	}
+	return h + uint64(len(s))*1000000007
 }
 
 type Replay struct {
@@ -117,6 +174,14 @@ func genSide(r *rand.Rand) Item {
 
 // one instance's schedule around the shared blocks
 func genSchedule(r *rand.Rand, blocks [][]string) []Item {
+	var bl []Item
+	for _, b := range blocks {
+		bl = append(bl, Item{T: "exec", Txs: b})
+	}
+	return genScheduleItems(r, bl)
+}
+
+func genScheduleItems(r *rand.Rand, blocks []Item) []Item {
 	var h []Item
 	if r.Intn(4) != 0 {
 		h = append(h, Item{T: "init"})
@@ -125,12 +190,56 @@ func genSchedule(r *rand.Rand, blocks [][]string) []Item {
 		for n := r.Intn(4); n > 0; n-- {
 			h = append(h, genSide(r))
 		}
-		h = append(h, Item{T: "exec", Txs: b})
+		h = append(h, b)
 	}
 	for n := r.Intn(3); n > 0; n-- {
 		h = append(h, genSide(r))
 	}
 	return h
+}
+
+// ---- size-boundary stream: large generated blocks, a rejected transaction at a late index ---------------
+
+type bigSpec struct{ n, bad int } // bad = index of the rejected transaction + 1, 0 = none
+
+var (
+	bigSizes = []int{255, 256, 257, 511, 512, 513, 1023, 1024, 1025, 2049}
+	bigQuick = []bigSpec{{257, 257}, {513, 513}, {513, 0}, {1025, 1025}, {1024, 601}}
+	badTxs   = []string{"novalue", "=x", "genesis/initialized=1", " finalizedHeight = 2", " = "}
+)
+
+func genBigSpec(r *rand.Rand) bigSpec {
+	n := bigSizes[r.Intn(len(bigSizes))]
+	var cand []int // 0-based indices
+	for _, i := range []int{0, 254, 255, 256, 257, 510, 511, 512, 513, 1022, 1023, 1024, 1025, 2046, 2047, 2048, n - 1, n / 2} {
+		if i >= 0 && i < n {
+			cand = append(cand, i)
+		}
+	}
+	if r.Intn(5) == 0 {
+		return bigSpec{n, 0}
+	}
+	return bigSpec{n, cand[r.Intn(len(cand))] + 1}
+}
+
+// shared blocks of a size-boundary pair: small block; the big block (rejected when it has a bad transaction);
+// small block; and when the big block was rejected: the same keys accepted with another value, then the
+// rejected block once more over the populated store, then a small block
+func bigBlocks(r *rand.Rand, sp bigSpec) []Item {
+	small := func() Item { return Item{T: "exec", Txs: []string{genTx(r), genTx(r)}} }
+	bad := badTxs[r.Intn(len(badTxs))]
+	mk := func(tag string, b int) Item {
+		it := Item{T: "execgen", N: sp.n, Tag: tag, Bad: b}
+		if b > 0 {
+			it.Tx = bad
+		}
+		return it
+	}
+	bl := []Item{small(), mk("v", sp.bad), small()}
+	if sp.bad > 0 {
+		bl = append(bl, mk("w", 0), mk("x", sp.bad), small())
+	}
+	return bl
 }
 
 // ---- driving the real executor ------------------------------------------------------------------
@@ -331,7 +440,7 @@ func rootStr(p *string) string {
 	if p == nil {
 		return "<error>"
 	}
-	return fmt.Sprintf("%q", *p)
+	return fmt.Sprintf("%q", clip(*p))
 }
 
 func oracleInst(name string, hist []Item, tr []obs) []viol {
@@ -346,13 +455,13 @@ func oracleInst(name string, hist []Item, tr []obs) []viol {
 		if !accepted && o.after != cur {
 			sig := map[string]string{"final": "finalize-changes-root", "inject": "mempool-changes-root", "gettxs": "mempool-changes-root",
 				"reopen": "reopen-changes-root", "init": "init-changes-root", "exec": "rejected-block-changes-root"}[it.T]
-			fail(sig, "call %d (%s) changed the state root from %q to %q", i, it.T, cur, o.after)
+			fail(sig, "call %d (%s, %d txs) changed the state root from %q to %q", i, it.T, len(it.Txs), clip(cur), clip(o.after))
 		}
 		switch it.T {
 		case "exec":
 			if o.root == nil {
 				if !sameDump(o.before, o.dump) {
-					fail("rejected-block-changes-store", "call %d: ExecuteTxs returned an error but the datastore changed", i)
+					fail("rejected-block-changes-store", "call %d: ExecuteTxs of %d transactions returned an error but the datastore changed (%d keys before, %d after)", i, len(it.Txs), len(o.before), len(o.dump))
 				}
 			} else {
 				for _, tx := range it.Txs {
@@ -361,7 +470,7 @@ func oracleInst(name string, hist []Item, tr []obs) []viol {
 					}
 				}
 				if *o.root != o.after {
-					fail("exec-root-not-current-root", "call %d: ExecuteTxs returned %q but the store's root is %q", i, *o.root, o.after)
+					fail("exec-root-not-current-root", "call %d: ExecuteTxs returned %q but the store's root is %q", i, clip(*o.root), clip(o.after))
 				}
 			}
 			if i > 0 && hist[i-1].T == "exec" && sameTxs(hist[i-1].Txs, it.Txs) {
@@ -377,11 +486,11 @@ func oracleInst(name string, hist []Item, tr []obs) []viol {
 				g := *o.root
 				genesis = &g
 				if g != cur {
-					fail("init-root-not-current-root", "call %d: first InitChain returned %q but the store's root was %q", i, g, cur)
+					fail("init-root-not-current-root", "call %d: first InitChain returned %q but the store's root was %q", i, clip(g), clip(cur))
 				}
 			} else {
 				if *o.root != *genesis {
-					fail("init-not-idempotent", "call %d: InitChain returned %q, the first call returned %q", i, *o.root, *genesis)
+					fail("init-not-idempotent", "call %d: InitChain returned %q, the first call returned %q", i, clip(*o.root), clip(*genesis))
 				}
 				if !sameDump(o.before, o.dump) {
 					fail("init-not-idempotent", "call %d: a repeated InitChain changed the datastore", i)
@@ -446,12 +555,13 @@ func oracleFresh(ha []Item, ta []obs) ([]viol, error) {
 		return nil, err
 	}
 	if tr[0].root == nil || *tr[0].root != last {
-		return []viol{{"root-depends-on-more-than-the-transactions", fmt.Sprintf("instance A ends with root %q; a fresh instance executing the same accepted transactions in one block returns %s", last, rootStr(tr[0].root))}}, nil
+		return []viol{{"root-depends-on-more-than-the-transactions", fmt.Sprintf("instance A ends with root %q; a fresh instance executing the same accepted transactions in one block returns %s", clip(last), rootStr(tr[0].root))}}, nil
 	}
 	return nil, nil
 }
 
 type caseRun struct {
+	ha, hb  []Item // the histories with generated blocks written out
 	ta, tb  []obs
 	viol    []viol
 	partial bool // the real code panicked: no complete trace
@@ -465,16 +575,17 @@ func runCase(rp Replay) (cr *caseRun, err error) {
 			cr.partial = true
 		}
 	}()
-	if cr.ta, err = runInst(rp.A, rp.Disk, 0); err != nil {
+	cr.ha, cr.hb = expand(rp.A), expand(rp.B)
+	if cr.ta, err = runInst(cr.ha, rp.Disk, 0); err != nil {
 		return nil, err
 	}
-	if cr.tb, err = runInst(rp.B, rp.Disk, 1); err != nil {
+	if cr.tb, err = runInst(cr.hb, rp.Disk, 1); err != nil {
 		return nil, err
 	}
-	cr.viol = append(cr.viol, oracleInst("A", rp.A, cr.ta)...)
-	cr.viol = append(cr.viol, oracleInst("B", rp.B, cr.tb)...)
-	cr.viol = append(cr.viol, oracleCross(rp.A, rp.B, cr.ta, cr.tb)...)
-	fv, err := oracleFresh(rp.A, cr.ta)
+	cr.viol = append(cr.viol, oracleInst("A", cr.ha, cr.ta)...)
+	cr.viol = append(cr.viol, oracleInst("B", cr.hb, cr.tb)...)
+	cr.viol = append(cr.viol, oracleCross(cr.ha, cr.hb, cr.ta, cr.tb)...)
+	fv, err := oracleFresh(cr.ha, cr.ta)
 	if err != nil {
 		return nil, err
 	}
@@ -615,6 +726,50 @@ func histCoq(in *interner, h []Item) string {
 	return vgen.List(items)
 }
 
+func bigHistCoq(in *interner, h []Item) string {
+	var items []string
+	for _, it := range h {
+		if it.gen != nil {
+			bad := "None"
+			if it.gen.Bad > 0 {
+				bad = fmt.Sprintf("(Some (%s, %s))", vgen.N(uint64(it.gen.Bad-1)), in.s(it.gen.Tx))
+			}
+			items = append(items, fmt.Sprintf("GGen %s %s %s", vgen.N(uint64(it.gen.N)), in.s(it.gen.Tag), bad))
+			continue
+		}
+		one := histCoq(in, []Item{it})
+		items = append(items, "GI ("+one[1:len(one)-1]+")")
+	}
+	return vgen.List(items)
+}
+
+func bigOutsCoq(in *interner, tr []obs) string {
+	fpo := func(p *string) string {
+		if p == nil {
+			return "None"
+		}
+		return "(Some " + vgen.N(fp(*p)) + ")"
+	}
+	var l []string
+	for _, o := range tr {
+		var t string
+		switch o.kind {
+		case "init":
+			t = "PInit " + fpo(o.root)
+		case "exec":
+			t = "PExec " + fpo(o.root)
+		case "final":
+			t = "PFinal " + vgen.Bool(o.ok)
+		case "gettxs":
+			t = "PTxs " + in.list(o.txs)
+		default:
+			t = "PNone"
+		}
+		l = append(l, "("+t+", "+vgen.N(fp(o.after))+")")
+	}
+	return vgen.List(l)
+}
+
 func outsCoq(in *interner, tr []obs) string {
 	var l []string
 	for _, o := range tr {
@@ -712,6 +867,23 @@ func TestVerif(t *testing.T) {
 				res.Violations = append(res.Violations, vgen.Violation{Signature: v.sig, What: v.what, Case: -1, Replay: Replay{}})
 			}
 		}
+		// size-boundary stream: the fixed specs in quick (shard 0), seed-drawn ones in thorough
+		var specs []bigSpec
+		if e.Tier == "thorough" {
+			r := caseRng(e.Seed, -7)
+			for i := 0; i < 8; i++ {
+				specs = append(specs, genBigSpec(r))
+			}
+		}
+		if os.Getenv("VERIF_NO_CORPUS") == "" {
+			specs = append(bigQuick, specs...)
+		}
+		for i, sp := range specs {
+			r := caseRng(e.Seed, -100-i)
+			bl := bigBlocks(r, sp)
+			jobs = append(jobs, Replay{Seed: e.Seed, Case: -100 - i, Disk: i%4 == 1, A: genScheduleItems(r, bl), B: genScheduleItems(r, bl)})
+			res.Count("source:size-boundary")
+		}
 		for c := 0; c < e.N; c++ {
 			r := caseRng(e.Seed, c)
 			blocks := genBlocks(r, maxBlocks)
@@ -743,13 +915,13 @@ func TestVerif(t *testing.T) {
 			reported[v.sig] = true
 			res.Violations = append(res.Violations, vgen.Violation{Signature: v.sig, What: v.what, Case: len(cases), Replay: shrink(rp, v.sig)})
 		}
-		for side, h := range [][]Item{rp.A, rp.B} {
+		for side, h := range [][]Item{cr.ha, cr.hb} {
 			if cr.partial {
 				break
 			}
-			tr := cr.ta
+			tr, compact := cr.ta, rp.A
 			if side == 1 {
-				tr = cr.tb
+				tr, compact = cr.tb, rp.B
 			}
 			accepted, rejected, finals, reexec := 0, 0, 0, false
 			for i, it := range h {
@@ -778,6 +950,29 @@ func TestVerif(t *testing.T) {
 				res.Count("history:has-reexecuted-block")
 			}
 			in := &interner{}
+			if isBig(h) {
+				// generated blocks are named, not written out; results cross as fingerprints
+				for _, it := range h {
+					if it.gen != nil {
+						res.Count(fmt.Sprintf("big-block:n=%d,bad-index=%d", it.gen.N, it.gen.Bad-1))
+					}
+				}
+				hc := bigHistCoq(in, h)
+				if accepted >= 2 && finals >= 1 {
+					distinct[hc] = true
+				}
+				ji := len(cases)
+				last := tr[len(tr)-1].dump
+				var sb strings.Builder
+				for _, e := range last {
+					sb.WriteString(e.k + ":" + e.v + ";")
+				}
+				defsAll = append(defsAll, fmt.Sprintf("Module C%d.\n%s\nDefinition c : bcase := {| bc_hist := %s;\n bc_outs := %s;\n bc_count := %s;\n bc_dump := %s |}.\nEnd C%d.",
+					ji, strings.Join(in.defs, "\n"), hc, bigOutsCoq(in, tr), vgen.N(uint64(len(last))), vgen.N(fp(sb.String())), ji))
+				cases = append(cases, fmt.Sprintf("Big C%d.c", ji))
+				res.Replays[fmt.Sprint(ji)] = Replay{Seed: rp.Seed, Case: rp.Case, Disk: rp.Disk, A: compact}
+				continue
+			}
 			hc := histCoq(in, h)
 			if accepted >= 2 && finals >= 1 {
 				distinct[hc] = true
@@ -787,8 +982,8 @@ func TestVerif(t *testing.T) {
 			ji := len(cases)
 			defsAll = append(defsAll, fmt.Sprintf("Module C%d.\n%s\nDefinition c : kcase := {| kc_hist := %s;\n kc_outs := %s;\n kc_dump := %s;\n kc_keys := %s;\n kc_trims := %s;\n kc_cap := %s |}.\nEnd C%d.",
 				ji, strings.Join(in.defs, "\n"), hc, outs, dump, ks, ts, vgen.N(uint64(kv.VerifC15MempoolCap())), ji))
-			cases = append(cases, fmt.Sprintf("C%d.c", ji))
-			one := Replay{Seed: rp.Seed, Case: rp.Case, Disk: rp.Disk, A: h}
+			cases = append(cases, fmt.Sprintf("Small C%d.c", ji))
+			one := Replay{Seed: rp.Seed, Case: rp.Case, Disk: rp.Disk, A: compact}
 			res.Replays[fmt.Sprint(ji)] = one
 			if len(res.Samples) < 3 && accepted >= 2 && rejected >= 1 && finals >= 1 {
 				var roots []string
@@ -800,11 +995,11 @@ func TestVerif(t *testing.T) {
 		}
 	}
 	res.Distinct = len(distinct)
-	res.Rule = "pairs of instance histories: 1..8 (thorough 1..20) shared blocks of 0..4 transactions (keys from common / path-cleaning / white-space / reserved / near-reserved / empty pools, ~6% rejected transactions, 1 in 8 blocks repeats the previous one), each instance with its own random schedule of InitChain, SetFinal (height 0..6), InjectTx, GetTxs and reopen calls around them and different ignored arguments; every 10th pair on the on-disk badger store with real close/reopen; each instance history is one Coq case; non-trivial = at least 2 accepted blocks and one successful SetFinal; distinct = distinct Coq history terms"
+	res.Rule = "size-boundary stream (5 fixed pairs per quick run, 8 more seed-drawn per thorough shard): a generated block of 255..2049 distinct keys with one rejected transaction at a late index (256, 512, 1024, 600, ...) or none, then the same keys accepted, then the rejected block again over the populated store, small blocks in between, on both instances under their own schedules, compared exactly by the Go oracle and as fingerprints by the Coq model; plus pairs of instance histories: 1..8 (thorough 1..20) shared blocks of 0..4 transactions (keys from common / path-cleaning / white-space / reserved / near-reserved / empty pools, ~6% rejected transactions, 1 in 8 blocks repeats the previous one), each instance with its own random schedule of InitChain, SetFinal (height 0..6), InjectTx, GetTxs and reopen calls around them and different ignored arguments; every 10th pair on the on-disk badger store with real close/reopen; each instance history is one Coq case; non-trivial = at least 2 accepted blocks and one successful SetFinal; distinct = distinct Coq history terms"
 	res.Cases = len(cases)
 	header := "From Coq Require Import String Ascii NArith List Bool.\nFrom Verif Require Import Base.Keys Model.KVExec Check.KVExecCheck."
 	path := filepath.Join(e.Out, "cases_C15.v")
-	if err := vgen.WriteCases(path, header, defsAll, "kcase", cases, "mismatches"); err != nil {
+	if err := vgen.WriteCases(path, header, defsAll, "xcase", cases, "xmismatches"); err != nil {
 		t.Fatal(err)
 	}
 	res.CaseFiles = []string{path}
